@@ -110,6 +110,38 @@ func TestC17Shipped(t *testing.T) {
 			absent(x & (1<<24 - 1))
 		}
 		rec.Evals(1 << 16)
+		// lookups in the order a router makes them: the same id several times in a row, present and absent ids
+		// alternating - the answer depends on the id alone, not on what was asked before
+		if len(idList) >= 2 {
+			var prevID uint32
+			y := uint32(88172645 + len(idList))
+			for k := 0; k < 4000; k++ {
+				y ^= y << 13
+				y ^= y >> 17
+				y ^= y << 5
+				var id uint32
+				switch y % 5 {
+				case 0:
+					id = prevID // once more
+				case 1, 2:
+					id = idList[int(y>>8)%len(idList)]
+				case 3:
+					id = idList[int(y>>8)%len(idList)] + 1
+				default:
+					id = (y >> 4) & (1<<24 - 1)
+				}
+				got := rw.GetMessage(id)
+				if m, present := ids[id]; present {
+					if got == nil || reflect.TypeOf(got.Message) != reflect.TypeOf(m) {
+						fail("lookup %d of a sequence: GetMessage(%d) = %v, want the codec of %T (the lookup before it asked for id %d)", k, id, got, m, prevID)
+					}
+				} else if got != nil {
+					fail("lookup %d of a sequence: GetMessage(%d) returned the codec of %T for an id that is not in the dialect (the lookup before it asked for id %d)", k, id, got.Message, prevID)
+				}
+				prevID = id
+			}
+			rec.Class("lookup-sequences-with-repeats", 1)
+		}
 		// groups: messages included from another shipped dialect are the same Go type there
 		own := typeByName(d)
 		for _, g := range d.Groups {
